@@ -95,6 +95,18 @@ Theorem first_match_is_longest :
 Proof. exact first_match_sort_longest. Qed.
 Print Assumptions first_match_is_longest.
 
+(* the law's own wildcard choice is what the property says: a matching prefix of maximal
+   length (the earliest declaration among equals), or none matches *)
+Theorem best_is_longest_match :
+  forall (n : name) (l : ptab),
+    match best n l with
+    | Some (q, p) => assoc q l = Some p /\ is_prefix q n = true /\
+                     forall q' p', In (q', p') l -> is_prefix q' n = true -> (length q' <= length q)%nat
+    | None => forall q' p', In (q', p') l -> is_prefix q' n = false
+    end.
+Proof. exact best_spec. Qed.
+Print Assumptions best_is_longest_match.
+
 Theorem reachable_states_satisfy_invariant :
   forall (ct : ctab) (pt : ptab) (ops : list op) (s : state) (ls : lstate),
     Inv ct pt s ls -> clean_run pt s ops = true -> exists ls', Inv ct pt (final_state pt s ops) ls'.
@@ -132,7 +144,7 @@ Print Assumptions plain_class_default_is_python.
 (* ReadOnly: the first assignment defines the value, is read back, and every later
    assignment or delete is rejected and leaves the value *)
 Theorem readonly_exactly_one_defining_assignment :
-  forall ct pt s ls n v w, Inv ct pt s ls -> gov ct pt s n = RPol PReadOnly ->
+  forall ct pt s ls n v w, Inv ct pt s ls -> gov ct pt s n = RPol (PReadOnly VUndef) ->
     defined (assoc n (s_od s)) = false -> v <> VUndef ->
     let s1 := fst (step pt s (OSet n v)) in
     o_out (snd (step pt s (OSet n v))) = Done /\
@@ -154,7 +166,7 @@ Proof. exact constant_fixed. Qed.
 Print Assumptions constant_never_changes.
 
 Theorem event_write_only :
-  forall ct pt s ls n v, Inv ct pt s ls -> gov ct pt s n = RPol PEvent ->
+  forall ct pt s ls n v, Inv ct pt s ls -> gov ct pt s n = RPol (PEvent None) ->
     o_out (snd (step pt s (OSet n v))) = Done /\
     (assoc n (s_od s) = None -> o_out (snd (step pt s (OGet n))) = Raise AttributeError) /\
     assoc n (s_od (fst (step pt s (OSet n v)))) = assoc n (s_od s).
@@ -172,6 +184,23 @@ Theorem typed_names_validate :
     end.
 Proof. exact typed_validates. Qed.
 Print Assumptions typed_names_validate.
+
+Theorem readonly_with_default_never_assignable :
+  forall ct pt s ls n d v, Inv ct pt s ls -> gov ct pt s n = RPol (PReadOnly d) -> d <> VUndef ->
+    (assoc n (s_od s) = None -> o_out (snd (step pt s (OGet n))) = Val d) /\
+    o_out (snd (step pt s (OSet n v))) = Raise TraitError /\
+    o_out (snd (step pt s (ODel n))) = Raise TraitError /\
+    assoc n (s_od (fst (step pt s (OSet n v)))) = assoc n (s_od s).
+Proof. exact readonly_default_fixed. Qed.
+Print Assumptions readonly_with_default_never_assignable.
+
+Theorem typed_event_write_only :
+  forall ct pt s ls n k v, Inv ct pt s ls -> gov ct pt s n = RPol (PEvent (Some k)) ->
+    o_out (snd (step pt s (OSet n v))) = (match validate k v with Some _ => Done | None => Raise TraitError end) /\
+    (assoc n (s_od s) = None -> o_out (snd (step pt s (OGet n))) = Raise AttributeError) /\
+    assoc n (s_od (fst (step pt s (OSet n v)))) = assoc n (s_od s).
+Proof. exact event_typed. Qed.
+Print Assumptions typed_event_write_only.
 
 (* in reachable states nothing is stored under Disallow / Constant / Event, so the
    side conditions [assoc n (s_od s) = None] above always hold there *)
@@ -252,13 +281,35 @@ Theorem late_class_inherits_cache_refuted : exists h1 k pre h2 c ops,
 Proof. exact late_class_refutes. Qed.
 Print Assumptions late_class_inherits_cache_refuted.
 
+(* Two instances of one class with their operations interleaved in any order: each instance
+   obeys the law on its own — instance traits and stored values of one never govern the
+   other, the shared class dictionary (with the cached resolutions) never changes a rule. *)
+Theorem two_interleaved_instances_obey_the_law :
+  forall (h : list classdef) (c : nat) (ops : list (bool * op)) (i : Z),
+    clean_run2 (snd (class_tables h c)) (init_state2 (fst (class_tables h c))) ops = true ->
+    law_hist2 (spec_rule h c) i l_init l_init
+              (run2 (snd (class_tables h c)) (init_state2 (fst (class_tables h c))) ops) = [].
+Proof. exact law_two_instances. Qed.
+Print Assumptions two_interleaved_instances_obey_the_law.
+
+Theorem two_instance_run_extends_the_single_run :
+  forall pt ops ctd a b,
+    map (fun x => (snd (fst x), snd x)) (run2 pt (ctd, a, b) (map (pair false) ops)) = run pt (st_of ctd a) ops.
+Proof. exact run2_single. Qed.
+Print Assumptions two_instance_run_extends_the_single_run.
+
+Theorem law_codes_relabelling_is_faithful_for_two_instances :
+  forall mr sr h i la lb, law_tag2 mr sr i la lb h = [] <-> law_hist2 mr i la lb h = [].
+Proof. exact law_tag2_nil. Qed.
+Print Assumptions law_codes_relabelling_is_faithful_for_two_instances.
+
 (* Non-vacuity: a hierarchy with overlapping wildcards in two bases under a strict and a
    private root; a clean history with an instance trait shadowing and being removed, a
    ReadOnly defined once, a Constant, an Event; outcomes of every class occur. *)
 Definition ex_h : list classdef :=
-  [ mkClass [([97; 95], PTyped VInt 7); ([97; 98; 95], PEvent)] [1%nat];              (* 3: a_ = Int, ab_ = Event; strict *)
+  [ mkClass [([97; 95], PTyped VInt 7); ([97; 98; 95], PEvent None)] [1%nat];              (* 3: a_ = Int, ab_ = Event; strict *)
     mkClass [([97; 95], PTyped VStr 102); ([98], PConstant 3)] [2%nat];                (* 4: a_ = Str, b = Constant; private *)
-    mkClass [([98; 98], PReadOnly)] [3%nat; 4%nat] ].                                  (* 5(3,4): bb = ReadOnly *)
+    mkClass [([98; 98], PReadOnly VUndef)] [3%nat; 4%nat] ].                                  (* 5(3,4): bb = ReadOnly *)
 Definition ex_ops : list op :=
   [ OSet [97; 97] 5; OSet [97; 97] 101; OGet [97; 98; 98]; OSet [97; 98; 98] 1; OGet [98]; OSet [98] 4;
     OSet [98; 98] 1; OSet [98; 98] 2; OGet [98; 98]; OGet [99]; OSet [99] 1; OSet [95; 99] 101; OGet [95; 99];
